@@ -16,7 +16,7 @@ PROPS = {
                    "with a reference model (status of every Add, exactly-once, not-early, deadline order, nothing missing at the end). "
                    "Exploration is the right level: the component is a small actor whose state space is covered densely by tens of thousands of short histories.",
         level_note="Trusts testing/synctest's virtual clock to behave like the real one; the consumer keeps reading and at most 8 duties share an instant "
-                   "(documented 10-slot buffer); Add at exactly the deadline instant is treated as unspecified.",
+                   "(documented 10-slot buffer); Add at exactly the deadline instant is treated as unspecified. TestC16Production takes each duty's deadline from the production deadline function (core.NewDutyDeadlineFunc) and states only the property about it.",
         runs={
             "quick": [dict(test="TestC16Deadliner", checks=30000), dict(test="TestC16ClockJumps", checks=20000), dict(test="TestC16Production", checks=6000)],
             "thorough": [dict(test="TestC16Deadliner", checks=400000, shards=12, timeout=1500), dict(test="TestC16ClockJumps", checks=400000, shards=4, timeout=1500), dict(test="TestC16Production", checks=200000, shards=2, timeout=1500)],
@@ -111,7 +111,7 @@ PROPS = {
         technique="property-based mutation testing of wire messages (rapid): valid signed messages of every shape, one generated alteration each, oracle = rejected without touching any receive buffer; positive control on the unaltered message",
         level_text="In-package check of the production receive handler: for generated valid messages (all five types, with justifications and values) every drawn alteration of a signed leaf at either nesting level, "
                    "re-signed rule violations, altered / missing referenced values, count limits, gated / expired duties, nil parts and arbitrary bytes must be rejected with no buffer or instance created, while the unaltered message is accepted exactly once.",
-        level_note="Runs as an overlay test inside core/consensus/qbft (no file is written to /repo); uses handle, signMsg, hashProto and Consensus fields the package's own tests also use. "
+        level_note="Runs as an overlay test inside core/consensus/qbft (no file is written to /repo); the component is built with the production constructor NewConsensus (never started) and only handle, signMsg, hashProto and the instance map are touched from inside the package; the transport-level sender and the receive deadline are drawn. "
                    "Base messages are built with signMsg rather than harvested from live runs; the decide-payload clause is covered by C01's cluster harness.",
         runs={
             "quick": [dict(test="TestC05Handle", checks=6000, shards=4)],
@@ -180,7 +180,7 @@ PROPS = {
         technique="property-based round-trip and structural-mutation testing (rapid) over generated values of every core type and fork; totality oracle = no panic in any operation the receive / decide / store / re-encode paths apply to a decoded value; determinism checked against the consensus package's own hash",
         level_text="Round trips through JSON, SSZ and the protobuf set converters for every core data type and fork version (content, signing root, signature, share index, clone equality and disjointness, deterministic bytes, order-independent consensus hash); "
                    "structurally mutated / truncated / spliced / type-confused / arbitrary encodings are pushed through decode and every later operation of the real receive and decide paths, where any panic is a crash of the process.",
-        level_note="The receive and decide paths are exercised by calling the production functions in production order (decode, eth2 verifier, parsigdb, sigagg, aggsigdb, broadcaster re-encode; decode, dutydb.Store, Await*, re-encode) rather than through live components; "
+        level_note="The receive and decide paths are exercised by calling the production functions in production order (decode, eth2 verifier, parsigdb, sigagg, aggsigdb, broadcaster re-encode; decode, dutydb.Store, Await*, re-encode) rather than through live components in the value-level tests; envelope-level oddities go through the production parsigex stream handler over the in-memory network (TestC14PeerFrameTotality) and leader-proposed values through live consensus components and the production duty store (TestC14DecidedValueTotality, half of the cases with the attestation comparison on); "
                    "native coverage-guided fuzzing (FuzzC14Decode, byte level, corpus seeded with every valid encoding) only in the thorough tier; it cannot be pinned to VERIF_SEED, a crasher is saved as the replay file.",
         runs={
             "quick": [dict(test="TestC14RoundTrip", checks=700, shards=3), dict(test="TestC14Mutations", checks=1300, shards=5, shrinktime="10s"), dict(test="TestC14PeerFrameTotality", checks=3000, shrinktime="10s"),
@@ -246,7 +246,7 @@ PROPS = {
         level_text="Production runFrostParallel on (a) a scheduling transport that lets one node at a time through the round barriers in a drawn order and (b) the production newFrostP2P + bcast transport over an in-memory libp2p stand-in with drawn frame order and duplicates; "
                    "pedersen.RunDKG over the same stand-in on virtual time. Oracle: same group key and same n public shares everywhere, secret share i matches public share i, every (or 40 drawn) t-subset of public shares reconstructs the key and of secret shares signs for the group key, t-1 shares do not, "
                    "aggLockHashSig/aggDepositData/aggValidatorRegistrations accept the honest partials and produce signatures valid under the group keys, and reject a forged partial.",
-        level_note="Runs as an overlay test inside package dkg (no file written to /repo). crypto/rand inside FROST/kyber cannot be seeded, so replay repeats configuration and schedule, not key material. In the scheduled variants partial signatures are exchanged by the harness faithfully; the whole command (dkg.Run on every member: definition, sync protocol, exchanger, ceremony, aggregation, lock / keystore files) runs in TestC11FullRun over loopback TCP on wall-clock time, where a ceremony that ends with an error is skipped (the property speaks of successful ceremonies) and a majority of failed ceremonies makes the run inconclusive.",
+        level_note="Runs as an overlay test inside package dkg (no file written to /repo). crypto/rand inside FROST/kyber cannot be seeded, so replay repeats configuration and schedule, not key material. In the scheduled variants partial signatures are exchanged by the harness faithfully; the whole command (dkg.Run on every member: definition, sync protocol, exchanger, ceremony, aggregation, lock / keystore files) runs in TestC11FullRun over loopback TCP on wall-clock time, where a ceremony that ends with an error is skipped (the property speaks of successful ceremonies) and a majority of failed ceremonies makes the run inconclusive. TestC11OddDealer lets one member misbehave (deals with threshold t+1 / spoofs a round-2 cast) and asserts only when every regular member finishes successfully.",
         runs={
             "quick": [dict(test="TestC11FrostSchedules", checks=40, shards=4, env={"VERIF_C11_MAXN": "8"}), dict(test="TestC11FrostP2P", checks=10, shards=4), dict(test="TestC11OddDealer", checks=12), dict(test="TestC11Pedersen", bin="pedersen", checks=25, shards=2),
                       dict(test="TestC11FullRun", bin="pedersen", checks=2, shards=3, shrinktime="1s", env={"VERIF_C11_FULL_MAXN": "4"})],
